@@ -191,7 +191,7 @@ def oracle(case):
         for a in attr_nums:
             name = H.attr_name(a)
             spec = meta.attrs.get(name)
-            if spec is None or spec.do_not_copy:
+            if spec is None or H.declared_attr_dnc(cls, name):
                 continue
             if name in fresh.__dict__:
                 if name not in target.__dict__:
@@ -240,7 +240,7 @@ def oracle(case):
                 except (LookupError, ValueError):
                     continue
                 spec = meta.attrs.get(H.attr_name(int(a))) if a.isdigit() else None
-                if spec is not None and spec.do_not_copy:
+                if spec is not None and H.declared_attr_dnc(cls, H.attr_name(int(a))):
                     lent.update(H.reachable_ids(o))
                 else:
                     for i, x in H.reachable_ids(o).items():
